@@ -636,3 +636,115 @@ M('C18-checksum-history-unbounded', 'C18', 'C18.O2', P2P,
   "                        if self.local_checksum_history.len() > MAX_CHECKSUM_HISTORY_SIZE {", "                        if self.local_checksum_history.len() > usize::MAX / 2 {", 'history effectively never pruned')
 M('C18-new-growth-site', 'C18', 'C18.O1', P2P,
   "        self.frames_ahead = self.max_frame_advantage();", "        self.frames_ahead = self.max_frame_advantage();\n        self.local_checksum_history.insert(self.sync_layer.current_frame(), 0);", 'a new, unbounded growth site')
+
+# ---------------------------------------------------------------- NEUTRAL edits: behaviour-preserving rewrites; every check must stay quiet
+ALL = ['C01', 'C02', 'C03', 'C04', 'C05', 'C06', 'C07', 'C08', 'C09', 'C10', 'C11', 'C12', 'C13', 'C14', 'C15', 'C16', 'C17', 'C18']
+N('rename-local-confirmed-frame', ALL, P2P,
+  """        let confirmed_frame = self.confirmed_frame();
+
+        // check game consistency and roll back, if necessary
+        self.handle_rollback_and_save(confirmed_frame, requests);
+
+        // send confirmed inputs to spectators before throwing them away
+        self.send_confirmed_inputs_to_spectators(confirmed_frame);
+
+        // set the last confirmed frame and discard all saved inputs before that frame
+        self.sync_layer
+            .set_last_confirmed_frame(confirmed_frame, self.sparse_saving);""",
+  """        let cf = self.confirmed_frame();
+
+        // check game consistency and roll back, if necessary
+        self.handle_rollback_and_save(cf, requests);
+
+        // send confirmed inputs to spectators before throwing them away
+        self.send_confirmed_inputs_to_spectators(cf);
+
+        // set the last confirmed frame and discard all saved inputs before that frame
+        let sparse = self.sparse_saving;
+        self.sync_layer.set_last_confirmed_frame(cf, sparse);""", 'renamed local, extra temporary')
+N('gate-negated-ge', ALL, P2P, "        if frames_ahead < self.max_prediction as i32 {", "        if !(frames_ahead >= self.max_prediction as i32) {", 'a < b written as !(a >= b)')
+N('gate-plus-one-le', ALL, P2P, "        if frames_ahead < self.max_prediction as i32 {", "        if frames_ahead + 1 <= self.max_prediction as i32 {", 'a < b written as a + 1 <= b')
+N('gate-stricter', ALL, P2P, "        if frames_ahead < self.max_prediction as i32 {", "        if frames_ahead + 1 < self.max_prediction as i32 {", 'a stricter gate (different behaviour, no property broken)')
+N('skip-lt-plus-one', ALL, PROTO, "                if inp_frame <= self.last_recv_frame() {", "                if inp_frame < self.last_recv_frame() + 1 {", 'a <= b written as a < b + 1')
+N('reorder-clear-before-step', ALL, P2P,
+  "            self.sync_layer.advance_frame();\n            self.pending_local_inputs.clear();\n            requests.push(GgrsRequest::AdvanceFrame { inputs });\n        } else {\n            debug!(\n                \"Prediction Threshold reached.",
+  "            self.pending_local_inputs.clear();\n            self.sync_layer.advance_frame();\n            requests.push(GgrsRequest::AdvanceFrame { inputs });\n        } else {\n            debug!(\n                \"Prediction Threshold reached.", 'independent statements reordered')
+N('add-logging', ALL, PROTO,
+  "        // drop pending outputs until the ack frame\n        self.pop_pending_output(body.ack_frame);", "        // drop pending outputs until the ack frame\n        trace!(\"acknowledged up to {}\", body.ack_frame);\n        self.pop_pending_output(body.ack_frame);", 'a trace! line')
+N('trim-as-loop-break', ALL, P2P,
+  "        while self.event_queue.len() > MAX_EVENT_QUEUE_SIZE {\n            self.event_queue.pop_front();\n        }\n    }\n\n    fn compare_local_checksums_against_peers",
+  "        loop {\n            if self.event_queue.len() <= MAX_EVENT_QUEUE_SIZE {\n                break;\n            }\n            self.event_queue.pop_front();\n        }\n    }\n\n    fn compare_local_checksums_against_peers", 'while rewritten as loop/break')
+MUTANTS.append(dict(id='neutral/extract-frames-ahead-helper', property=ALL, expect=[], neutral=True, desc='gate operand extracted into a helper function',
+    edits=[dict(file=P2P, old="""        let frames_ahead = if self.sync_layer.last_confirmed_frame() == NULL_FRAME {
+            self.sync_layer.current_frame()
+        } else {
+            self.sync_layer.current_frame() - self.sync_layer.last_confirmed_frame()
+        };
+        if frames_ahead < self.max_prediction as i32 {""", new="""        if self.frames_ahead_of_confirmed() < self.max_prediction as i32 {"""),
+           dict(file=P2P, old="""    /// Roll back to `min_confirmed` frame and resimulate the game with most up-to-date input data.""",
+                new="""    fn frames_ahead_of_confirmed(&self) -> i32 {
+        if self.sync_layer.last_confirmed_frame() == NULL_FRAME {
+            self.sync_layer.current_frame()
+        } else {
+            self.sync_layer.current_frame() - self.sync_layer.last_confirmed_frame()
+        }
+    }
+
+    /// Roll back to `min_confirmed` frame and resimulate the game with most up-to-date input data.""")]))
+_unused = ('extract-frames-ahead-helper', ALL, P2P,
+  """        let frames_ahead = if self.sync_layer.last_confirmed_frame() == NULL_FRAME {
+            self.sync_layer.current_frame()
+        } else {
+            self.sync_layer.current_frame() - self.sync_layer.last_confirmed_frame()
+        };
+        if frames_ahead < self.max_prediction as i32 {""",
+  """        if self.frames_ahead_of_confirmed() < self.max_prediction as i32 {""", 'gate operand extracted into a helper (first half)')
+N('inline-lockstep-confirmed', ALL, P2P,
+  "        if self.lockstep_current_frame_confirmed() {\n            let inputs = self", "        if self.confirmed_frame() >= self.sync_layer.current_frame() {\n            let inputs = self", 'helper inlined')
+N('swap-and-operands', ALL, SL,
+  "            if con_stat.disconnected && con_stat.last_frame < self.current_frame {", "            if con_stat.last_frame < self.current_frame && con_stat.disconnected {", 'operands of && swapped')
+N('gt-instead-of-lt', ALL, SL,
+  "            if con_stat.disconnected && con_stat.last_frame < frame {", "            if con_stat.disconnected && frame > con_stat.last_frame {", 'a < b written as b > a')
+N('match-instead-of-if-state', ALL, PROTO,
+  "        if self.state != ProtocolState::Running {\n            return;\n        }\n\n        let endpoint_data", "        match self.state {\n            ProtocolState::Running => (),\n            _ => return,\n        }\n\n        let endpoint_data", 'if state != Running rewritten as match')
+N('early-return-inverted', ALL, PROTO,
+  "        if self.state == ProtocolState::Shutdown {\n            return;\n        }\n\n        self.state = ProtocolState::Disconnected;\n        // schedule the timeout which will lead to shutdown\n        self.shutdown_timeout = Instant::now().add(Duration::from_millis(UDP_SHUTDOWN_TIMER));",
+  "        if self.state != ProtocolState::Shutdown {\n            self.state = ProtocolState::Disconnected;\n            // schedule the timeout which will lead to shutdown\n            self.shutdown_timeout = Instant::now().add(Duration::from_millis(UDP_SHUTDOWN_TIMER));\n        }", 'early return turned into a guarded block')
+N('timer-via-duration-since', ALL, PROTO,
+  "                    && self.last_recv_time + self.disconnect_timeout < now", "                    && now.duration_since(self.last_recv_time) > self.disconnect_timeout", 'timer comparison written with duration_since')
+N('doc-comment-and-format', ALL, IQ,
+  "    pub(crate) fn reset_prediction(&mut self) {\n        self.prediction.frame = NULL_FRAME;\n        self.first_incorrect_frame = NULL_FRAME;\n        self.last_requested_frame = NULL_FRAME;",
+  "    /// Forget the prediction state.\n    pub(crate) fn reset_prediction(&mut self) {\n        self.last_requested_frame = NULL_FRAME;\n        self.first_incorrect_frame = NULL_FRAME;\n        self.prediction.frame = NULL_FRAME;", 'statement order of independent stores, doc comment')
+N('marker-condition-nested-ifs', ALL, IQ,
+  "            if self.first_incorrect_frame == NULL_FRAME && !self.prediction.input_matches(&input) {\n                self.first_incorrect_frame = frame_number;\n            }",
+  "            if self.first_incorrect_frame == NULL_FRAME {\n                if !self.prediction.input_matches(&input) {\n                    self.first_incorrect_frame = frame_number;\n                }\n            }", '&& split into nested ifs')
+N('retain-bound-precomputed', ALL, PROTO,
+  "            self.recv_inputs\n                .retain(|&k, _| k >= last_recv_frame - 2 * self.max_prediction as i32);",
+  "            let oldest = last_recv_frame - 2 * self.max_prediction as i32;\n            self.recv_inputs.retain(|&k, _| k >= oldest);", 'prune bound computed outside the closure')
+N('spectator-ring-check-order', ALL, SPEC,
+  """        if player_inputs[0].frame < frame_to_grab {
+            return Err(GgrsError::PredictionThreshold);
+        }
+
+        // The host is more than [`SPECTATOR_BUFFER_SIZE`] frames ahead of the spectator. The input we need is gone forever.
+        if player_inputs[0].frame > frame_to_grab {
+            return Err(GgrsError::SpectatorTooFarBehind);
+        }
+""", """        // The host is more than [`SPECTATOR_BUFFER_SIZE`] frames ahead of the spectator. The input we need is gone forever.
+        if player_inputs[0].frame > frame_to_grab {
+            return Err(GgrsError::SpectatorTooFarBehind);
+        }
+        if player_inputs[0].frame < frame_to_grab {
+            return Err(GgrsError::PredictionThreshold);
+        }
+""", 'order of two independent checks swapped')
+N('builder-fps-lt-1', ALL, BUILDER, "        if fps == 0 {", "        if fps < 1 {", 'fps == 0 written as fps < 1 (unsigned)')
+N('catchup-speed-eq-0', ALL, BUILDER, "        if catchup_speed < 1 {", "        if catchup_speed == 0 {", 'catchup_speed < 1 written as == 0 (unsigned)')
+N('delta-decode-check-as-sub', ALL, COMP,
+  "        if pos + 2 > data.len() {\n            return Err(\"truncated length prefix\".into());\n        }", "        if data.len() < pos + 2 {\n            return Err(\"truncated length prefix\".into());\n        }", 'comparison operands swapped')
+N('send-input-ack-helper-renamed-local', ALL, PROTO,
+  "        let body = InputAck {\n            ack_frame: self.last_recv_frame(),\n        };\n\n        self.queue_message(MessageBody::InputAck(body));",
+  "        let ack = InputAck {\n            ack_frame: self.last_recv_frame(),\n        };\n        let message = MessageBody::InputAck(ack);\n        self.queue_message(message);", 'locals renamed / split')
+N('disconnect-frame-min-via-cmp', ALL, P2P,
+  "                    if self.disconnect_frame == NULL_FRAME || last_frame + 1 < self.disconnect_frame {\n                        self.disconnect_frame = last_frame + 1;\n                    }",
+  "                    let candidate = last_frame + 1;\n                    if self.disconnect_frame == NULL_FRAME || self.disconnect_frame > candidate {\n                        self.disconnect_frame = candidate;\n                    }", 'min-merge with a temporary and flipped comparison')
